@@ -725,6 +725,32 @@ func (fr *Frame) enterLoop(li *loopInfo, reach Term) {
 	} else if fr.c != nil {
 		invs = fr.c.LoopInv[li.ordinal]
 	}
+	// ghost lets that a call inside the loop may rebind are unknown at the header
+	if fr.c != nil && len(fr.ghosts) > 0 {
+		for _, ac := range fr.c.AtCalls {
+			if ac.Kind != "let" || fr.ghosts[ac.Let] == nil {
+				continue
+			}
+			pat := ac.Callee
+			if i := strings.LastIndex(pat, "#"); i > 0 {
+				pat = pat[:i]
+			}
+		scan:
+			for lb := range li.blocks {
+				for _, in := range lb.Instrs {
+					ci, ok := in.(ssa.CallInstruction)
+					if !ok {
+						continue
+					}
+					cc := ci.Common()
+					if calleeMatches(calleeName(cc, cc.StaticCallee()), pat) {
+						delete(fr.ghosts, ac.Let)
+						break scan
+					}
+				}
+			}
+		}
+	}
 	// entry values of header phis
 	entry := map[ssa.Value]*Val{}
 	var phis []*ssa.Phi
